@@ -233,16 +233,25 @@ def same_result(r, m, keys=('op',)):
 
 # ------------------------------------------------------------------ (T) argument types / containers
 
-def vary_ints(rng, l, kinds=('int', 'np64', 'np32'), containers=('list',), bool_ok=False, float_ok=False):
-    """the same integer values in another element type / container"""
+NP_INT_KINDS = {'np64': numpy.int64, 'np32': numpy.int32, 'np16': numpy.int16, 'np8': numpy.int8,
+                'npu8': numpy.uint8, 'npu16': numpy.uint16, 'npu32': numpy.uint32, 'npu64': numpy.uint64}
+UNSIGNED_KINDS = ('npu8', 'npu16', 'npu32', 'npu64')
+
+
+def vary_ints(rng, l, kinds=('int', 'np64', 'np32'), containers=('list',), bool_ok=False, float_ok=False,
+              dtype_pool=True):
+    """the same integer values in another element type / container; with `dtype_pool` the narrow and the
+    UNSIGNED numpy integer types (uint8 as delivered by numpy.unpackbits, uint16, uint32, uint64, int8, int16)
+    are drawn as often as the plain ones: arithmetic such as 1 - 2*x wraps around for them"""
     kinds = list(kinds)
+    if dtype_pool and all(int(x) >= 0 for x in l):
+        kinds += ['np8', 'np16', 'npu8', 'npu8', 'npu16', 'npu32', 'npu64', 'npu64']
     if bool_ok and all(x in (0, 1) for x in l):
         kinds += ['bool', 'npbool', 'bool', 'npbool']
     if float_ok:
         kinds += ['float']
     k = rng.choice(kinds)
-    conv = {'int': int, 'np64': numpy.int64, 'np32': numpy.int32, 'bool': bool, 'npbool': numpy.bool_,
-            'float': float}[k]
+    conv = dict({'int': int, 'bool': bool, 'npbool': numpy.bool_, 'float': float}, **NP_INT_KINDS)[k]
     vals = [conv(x) for x in l]
     c = rng.choice(list(containers))
     if c == 'list':
@@ -251,8 +260,30 @@ def vary_ints(rng, l, kinds=('int', 'np64', 'np32'), containers=('list',), bool_
         return tuple(vals), k + '/tuple'
     if c == 'range' and list(l) == list(range(l[0], l[0] + len(l))) if l else False:
         return range(l[0], l[0] + len(l)), 'range'
-    dt = {'int': int, 'np64': numpy.int64, 'np32': numpy.int32, 'bool': bool, 'npbool': bool, 'float': float}[k]
+    dt = dict({'int': int, 'bool': bool, 'npbool': bool, 'float': float}, **NP_INT_KINDS)[k]
     return numpy.array(l, dtype=dt), k + '/ndarray'
+
+
+def int_forms(l, lists_only=False):
+    """the deterministic sweep of the dtype pool: (label, value) for the same integers as uint8 (through
+    numpy.unpackbits when they are bits), uint16, uint64 and int8, as ndarray and as list of numpy scalars"""
+    out = []
+    for name in ('npu8', 'npu16', 'npu64', 'np8'):
+        dt = NP_INT_KINDS[name]
+        if not lists_only:
+            if name == 'npu8' and l and all(x in (0, 1) for x in l):
+                bits = numpy.unpackbits(numpy.packbits(numpy.array(l, dtype=numpy.uint8)))[:len(l)]
+                out.append((name + '/unpackbits', bits))
+            else:
+                out.append((name + '/ndarray', numpy.array(l, dtype=dt)))
+        out.append((name + '/list', [dt(x) for x in l]))
+    return out
+
+
+def vary_int(rng, x):
+    """a single non-negative integer argument as a Python or numpy integer of any width / signedness"""
+    k = rng.choice(['int', 'np64', 'np32', 'np8', 'npu8', 'npu8', 'npu16', 'npu64', 'npu64'])
+    return (int(x), 'int') if k == 'int' else (NP_INT_KINDS[k](x), k)
 
 
 def vary_coeff(rng, c):
@@ -582,6 +613,10 @@ def stream_proj(ctx):
                 'qubit subsets in arbitrary order, random sectors, malformed arguments) and rotate_qubit_by_pauli (n <= 3, '
                 'random Pauli strings, angles atan2(s, c) of Pythagorean pairs and multiples of pi/2); projection compared '
                 'exactly with the Model and with the embedded matrix elements of the original operator (Spec, exact); '
+                'qubits / sectors are drawn as list / tuple / ndarray of int, bool, float and of every numpy integer width '
+                'and signedness, and every admissible case with a sector 1 is repeated with sectors and qubits as uint8 '
+                '(numpy.unpackbits), uint16, uint64 and int8 arrays and scalar lists, which must give the list-form result '
+                'exactly (dtype-sweep:*); '
                 'rotation compared with the Model at 1e-9 and with the dense Spec matrix of (c - i s P) Q (c + i s P) at 1e-9; '
                 'distinct = distinct inputs')
     orc = Oracle(ctx)
@@ -655,6 +690,31 @@ def stream_proj(ctx):
             st.float_comparisons += 1
             if abs(re['ok'] - math.sqrt(Fraction(me['ok'][0], me['ok'][1]))) > 1e-9:
                 st.disagree('projection_error (1e-9)', case, re, me)
+        if admissible and 'ok' in m and 'ok' in r and any(x == 1 for x in sectors):
+            # family (T): the same sectors / qubits as narrow and UNSIGNED numpy integers (1 - 2*sectors or
+            # (-1)**sectors wraps around for uint8 / uint16 / uint64) must give the list-form result exactly
+            import warnings as _w
+            want = canon_op_json(m['ok']['op'])
+            forms = [('sectors=' + lab, list(qubits), v) for lab, v in int_forms(sectors)] + \
+                    [('qubits=' + lab, v, list(sectors)) for lab, v in int_forms(qubits, lists_only=True)]
+            for lab, qv, sv in forms:
+                st.count('dtype-sweep:' + lab)
+                try:
+                    with _w.catch_warnings():
+                        _w.simplefilter('error', RuntimeWarning)
+                        o2 = of.transforms.project_onto_sector(op, qv, sv)
+                        e2 = of.transforms.projection_error(op, qv, sv)
+                except Exception as e:
+                    st.violate('project_onto_sector / projection_error fail (%s: %s) when %s' % (errname(e), e, lab),
+                               dict(case, types=lab), {})
+                    continue
+                if canon_op_json(enc_op('qubit', o2.terms)) != want:
+                    st.violate('project_onto_sector depends on the integer dtype of its arguments (%s)' % lab,
+                               dict(case, types=lab), {'typed': enc_op('qubit', o2.terms), 'list_form': m['ok']['op']})
+                st.float_comparisons += 1
+                if 'ok' in re and abs(float(e2) - re['ok']) > 1e-12:
+                    st.violate('projection_error depends on the integer dtype of its arguments (%s)' % lab,
+                               dict(case, types=lab), {'typed': float(e2), 'list_form': re['ok']})
         if 'ok' in r:
             rem = [q for q in range(n) if q not in qubits]
             ones = [q for q, s in zip(qubits, sectors) if s == 1]
@@ -894,7 +954,23 @@ def stream_scbk(ctx):
         zonly = all(a == 3 for t, _ in jbk for i, a in t if i in removed)
         st.count('hypothesis(I/Z on the removed qubits):%s' % zonly)
         try:
+            n_t, nk = vary_int(rng, n)
+            ne_t, nek = vary_int(rng, ne)
+            st.count('types:active_orbitals=%s,active_fermions=%s' % (nk, nek))
+            case['types'] = {'active_orbitals': nk, 'active_fermions': nek}
             out = of.transforms.symmetry_conserving_bravyi_kitaev(H, n, ne)
+            if nk != 'int' or nek != 'int':
+                # numpy integers: the source insists on `int` (ValueError); if a tree accepts them the
+                # result must be the plain-int result (no wrap-around of narrow / unsigned types)
+                try:
+                    out_t = of.transforms.symmetry_conserving_bravyi_kitaev(H, n_t, ne_t)
+                    st.count('numpy-int arguments:accepted')
+                    if canon_op_json(enc_op('qubit', out_t.terms)) != canon_op_json(enc_op('qubit', out.terms)):
+                        st.violate('symmetry_conserving_bravyi_kitaev depends on the integer type of '
+                                   'active_orbitals / active_fermions', case,
+                                   {'typed': enc_op('qubit', out_t.terms), 'int_form': enc_op('qubit', out.terms)})
+                except ValueError:
+                    st.count('numpy-int arguments:ValueError')
         except Exception as e:
             st.violate('unexpected exception %s: %s' % (errname(e), e), case, {})
             continue
